@@ -126,6 +126,35 @@ CHECKS.update({
 NOT_YET = {}
 
 
+# what later rounds added to each claim (appended to the level text)
+ADDENDA = {
+    'C01': ' Round 3: the kernel _lincomb_impl additionally runs on 1-d data whose NUMBER OF ENTRIES is a solver integer '
+           '(symnp/larr.py), so its whole size dispatch incl. the > int32 guard is decided for every size and position '
+           '(anysize/*); ndarray operands, x/x on IEEE special values (concrete facts), a BLAS-regime shape whose first '
+           'axis alone reaches the threshold; the BLAS stubs honour the length argument.',
+    'C03': ' Round 3: every functional recipe goes through the same protocol (f, f.gradient, f.proximal), LpNorm with '
+           'p = 3, 4, 6, slice-indexed component projections; the finite-difference operators (not encodable) get a '
+           'concrete protocol check with bitwise comparison of x (concrete facts, counted separately).',
+    'C04': ' Round 3: A**n for n up to 11 (thorough 16); a family with an in-place leaf that is deliberately not alias-safe.',
+    'C06': ' Round 3: affine variants of every difference operator for every method; single-component vector fields.',
+    'C08': ' Round 3: separable sums of same-class summands, nested argument/value scalings.',
+    'C09': ' Round 3: value/* decides that every derived functional takes its documented value (independent oracle from '
+           'the space\'s inner product); nested scalings, Rosenbrock on rn(3)/rn(4), separable sums with a finite constant '
+           'first, vector-scaled quadratic forms.',
+    'C12': ' Round 3: relaxation lam != 1, a line search object reused across runs, CG in 1-d (symbolic, np.isclose forks) '
+           'and at extreme scales (concrete facts).',
+    'C13': ' Round 3: 1-d finite_diff additionally runs on an array of symbolic LENGTH (anylen/*): the entry at a symbolic '
+           'position equals the ghost-cell stencil / the column of minus the transposed forward matrix for every length.',
+    'C14': ' Round 3: strict definedness (a division by the 0.0 cell size of a length-1 axis is a violation, not an excuse); '
+           'negative slice bounds and insertion indices, single-node axes, dictionary limits with symbolic values.',
+    'C16': ' Round 3: 1-d resize_array additionally runs with symbolic lengths, offset and position (anylen/*): forward in '
+           'all five modes, adjoint in constant/periodic/symmetric, illegal padding lengths must raise, for EVERY length.',
+    'C17': ' Round 3: the whole legacy interface (every name of odl.util.ufuncs.UFUNCS) against NumPy on NaN/inf/signed zeros '
+           '(concrete facts); outer with out=.',
+    'C20': ' Round 3: mixed-dtype product spaces under astype; the dtype-conversion matrix of element creation.',
+}
+
+
 def main():
     props = [json.loads(l) for l in open(os.path.join(HERE, 'properties.jsonl'))]
     checks = []
@@ -141,7 +170,7 @@ def main():
                 'evidence_file': '/verif/evidence/%s.json' % pid,
                 'replay_cmd_template': './check %s --replay {path}' % pid,
                 'engine': 'symnp',
-                'level_claimed': {'category': 'other', 'text': c['text'], 'design_ref': c['ref']},
+                'level_claimed': {'category': 'other', 'text': c['text'] + ADDENDA.get(pid, ''), 'design_ref': c['ref']},
                 'level_note': c['note'],
                 'technique': c.get('technique', TECH),
             })
